@@ -352,11 +352,13 @@ pub struct SenderLimitOracle {
     max_outstanding_fill_permille: u64,
     checks: u64,
     alloc_limited_runs: bool,
+    /// server-side half connections whose peer is not known yet: (server, hc) -> limit in use
+    unattributed: BTreeMap<(usize, u64), u64>,
 }
 
 impl SenderLimitOracle {
     pub fn new(property: &'static str) -> Self {
-        Self { property, conns: BTreeMap::new(), index: ConnIndex::default(), limits: BTreeMap::new(), max_outstanding_packets: 0, max_outstanding_fill_permille: 0, checks: 0, alloc_limited_runs: false }
+        Self { property, conns: BTreeMap::new(), index: ConnIndex::default(), limits: BTreeMap::new(), max_outstanding_packets: 0, max_outstanding_fill_permille: 0, checks: 0, alloc_limited_runs: false, unattributed: BTreeMap::new() }
     }
 }
 
@@ -364,12 +366,34 @@ impl Oracle for SenderLimitOracle {
     fn on(&mut self, rec: &Rec, cx: &Cx) -> Option<Violation> {
         let prop = self.property;
         self.index.observe(rec, cx);
+        // a server learns whom a new half connection belongs to from its next probe: the limit it
+        // uses towards that client has to be the one the client's configuration advertises
+        if let Rec::Probe { call, ep, probe: Probe::Server(sv), .. } = rec {
+            if !self.unattributed.is_empty() {
+                for c in sv.clients.iter() {
+                    if let (Some(h), Some(peer)) = (&c.hc, cx.ep_of(&c.address)) {
+                        if let Some(limit) = self.unattributed.remove(&(*ep, h.verif_id)) {
+                            if let EndpointKind::Client { cfg, .. } = &cx.plan.endpoints[peer].kind {
+                                let pl = cfg.max_receive_alloc.min(u32::MAX as u64);
+                                if pl != limit {
+                                    return viol(prop, "advertised_limit_mismatch", format!("server {} uses a transmit allocation limit of {} towards client {}, whose configuration advertises {}", ep, limit, peer, pl), *call);
+                                }
+                            }
+                        }
+                    }
+                }
+                self.unattributed.retain(|(e, _), _| e != ep);
+            }
+        }
         match rec {
             Rec::Call { op: Op::Create { ep }, skipped: false, .. } => {
                 let ep = *ep;
                 self.conns.retain(|(a, b), _| *a != ep && *b != ep);
             }
             Rec::Trace { call, ep, hc, ev } => {
+                if let (T::HcCreated { tx_alloc_limit, .. }, EndpointKind::Server { .. }) = (ev, &cx.plan.endpoints[*ep].kind) {
+                    self.unattributed.insert((*ep, *hc), *tx_alloc_limit as u64);
+                }
                 let Some(peer) = self.index.peer(*hc, *ep, cx) else { return None };
                 match ev {
                     T::HcCreated { tx_alloc_limit, tx_packet_window_size, .. } => {
